@@ -8,6 +8,11 @@ TRUST = ["Eigen dense self-adjoint eigen-solver, LU and MatrixFunctions::exp use
          "held on the executions observed only; nothing is claimed for inputs/schedules that were not run"]
 
 VH = {
+    "C11": dict(drivers=[dict(driver="gfsym", flavours=P2, timeout=60)],
+                floor=dict(quick=30, thorough=300),
+                rule="cases = generated model x partition x {real,complex}, every 5th with beta in [200,2000] (beta*|pole| up to ~1e4); per index pair: conj symmetry at 4 random off-axis z, "
+                     "z*G(z)->delta at |z|=1e4..1e8(1+|H|), Im G_ii(i w_n)<0, of_tau vs trace oracle at 7 points incl. 0 and beta, G_ii(tau)<=0, G(0+)+G(beta-)=-delta, G_ii(beta-)=-<n_i> (DensityMatrix), "
+                     "16-point composite Gauss-Legendre transform of of_tau vs operator()(n); non-trivial = dim>=4 and non-zero bandwidth; distinct by model+partition"),
     "C14": dict(drivers=[dict(driver="susc", flavours=P2, timeout=60)],
                 floor=dict(quick=40, thorough=400),
                 rule="cases = generated model (degenerate / near-degenerate classes over-represented) x partition x {real,complex}; per case all (N<=2) or 8-14 operator quadruples (a,b,c,d) incl. S_z-changing ones x "
@@ -51,6 +56,10 @@ HOOK_COMMITS = []
 NOT_YET = {}
 
 INFO = {
+    "C11": dict(technique="runtime invariant/oracle monitors on GreensFunction::operator()(z), of_tau and DensityMatrix occupancies: symmetry, tail, sign, sum rules, quadrature duality",
+                level_text="Analytic identities of the fermionic Green's function are evaluated on the real objects for generated models incl. beta*|pole| ~ 1e4 where the two overflow-avoiding branches of the tau formula matter; tolerances are the documented reductions evaluated per run; held on what was run.",
+                level_note="Trusts Eigen and the Gauss-Legendre nodes; N <= 4 quick / 6 thorough.",
+                design_ref="DESIGN.md section 3, C11"),
     "C14": dict(technique="runtime oracle monitor: Susceptibility values (frequency incl. W=0, imaginary time, disconnected part) vs definition integral from an independent full ED",
                 level_text="Every returned value is compared with the definition, with the zero-frequency/degenerate case handled by a stable divided difference and by the exact block-exponential integral; a dropped Lehmann term is allowed to change the result only by O(residue*beta), so terms that are dropped although they carry O(1) weight are reported; held on what was run.",
                 level_note="Trusts Eigen; N <= 4 quick / 6 thorough; reading of the documented thresholds (residue 1e-8, pole window 1e-8) as 'error at most ~1e-8*beta per term' is stated in DESIGN.md.",
